@@ -17,11 +17,12 @@ REMAINING HYPOTHESES (each explicit in the statements; dependency diagram in not
  (L) LITERATURE  `PhiRunOK.lit`: `π(n) ≤ pix_upper(n)` for the double formula above 30719 — or merely `a < pix_upper(n)` (the guard is not taken).
  (S) MODEL SIZE  `W.OK.size`, `GReach`, `yB`, `yb`: the ONE shared table `T.t` of the model reaches what the callee would allocate (pure parameters of the
                  model: `W.N` is arbitrary); primesieve configuration `16 ≤ kib ≤ 8192`; iterator stop hints are `uint64_t` values.
- (T) NOT CLOSED  (listed, justified in the notes) `PhiRunOK.prime0/primes` — the vector `generate_n_primes(a)` inside phi.cpp (model
-                 `It.pcGenerateNPrimes`, no theorem); `PhiRunOK.cache` — contents of the PhiCache sieve arrays (`init_cache` not modelled; free when the
+ (T) NOT CLOSED  (listed, justified in the notes) `PhiRunOK.cache` — contents of the PhiCache sieve arrays (`init_cache` not modelled; free when the
                  constructor disables the cache: `cacheOK_of_geometry`); `W.OK.phiVec` — `PhiCache::phi<-1>` inside `phi_vector` (= C07's conclusion,
                  `phiNegSpec_of_phiRecAlg`); `T.S` is the REFERENCE sieve over the constructor-built primes (the bit-exact `class Sieve` meets
                  `SieveSpec` for segments with `seg/30*8 < 2^32`, `TablesOK.sieve` asks every segment); Gourdon for `2 ≤ x < 2401` (`get_k(x) < 4`).
+The prime vectors are NOT hypotheses: `generate_primes<T>(max)` / `generate_n_primes<int32_t>(a)` (StorePrimes.hpp over the iterator over the same
+sieving core) return exactly the lists the tables / phi.cpp read (`world_generate_primes`).
 Only property theorems, non-vacuity examples and the axiom audit live here.
 -/
 import PcProofs.CloseWorldEx
@@ -40,6 +41,14 @@ theorem world_tables_ok (W : World) {B : ℕ} (h : W.OK B) (wide : Bool) :
       P2L.IterSpecTo (W.tables wide).it It.maxPrime64 :=
   ⟨W.tables_ok h wide, W.it_specTo h⟩
 
+/-- **the prime vectors**: (1) what `generate_primes<T>(max)` (generate_primes.cpp → `store_primes` of StorePrimes.hpp: two loops over
+    `primesieve::iterator`, the last 64-bit prime appended by hand) returns over the iterator model over the world's sieving core IS the list
+    `genPrimes W.gen max` the C17 constructor models read; (2) phi.cpp's `generate_n_primes<int32_t>(a)` is `[0, p 1, …, p a]` -/
+theorem world_generate_primes (W : World) {B : ℕ} (h : W.OK B) :
+    (∀ vmax mx, mx ≤ vmax → mx ≤ It.umax → It.pcGeneratePrimes W.env vmax mx = .ok (genPrimes W.gen mx)) ∧
+    (∀ x a N, a ≤ π N → N ≤ 2 ^ 31 - 1 → W.prime x a 0 = 0 ∧ ∀ i, 1 ≤ i → i ≤ a → W.prime x a i = Spec.p i) :=
+  ⟨fun vmax mx hv hu => W.generate_primes_eq h vmax mx hv hu, fun x a N ha hN => W.generate_n_primes_eq h x a N ha hN⟩
+
 /-- **the nested calls return π**: any `pi` that is consistent with being computed by the dispatcher over the world is π at every int64
     argument below `x` -/
 theorem nested_calls_are_pi (W : World) {B : ℕ} (h : W.OK B) (pi : ℕ → ℕ) (x : ℤ)
@@ -53,7 +62,7 @@ theorem nested_calls_are_pi (W : World) {B : ℕ} (h : W.OK B) (pi : ℕ → ℕ
     `pi_gourdon_64`; above → `pi_gourdon_128`.  The tables are those of the route that is taken (`W.tables (x > INT64_MAX)`: `uint32_t` factor-table
     entries only inside `pi_gourdon_128`, D.cpp:311); the nested `pi_noprint` calls are 64-bit (`W.Nested` is over `W.tables false`).
     Hypotheses: (F) `h.float`, `GourdonEnv` in `hex`; (O) `hex`, `hrec`, `PhiRunOK.order`; (L) `PhiRunOK.lit`; (S) `h.size`, reach fields of `hex`;
-    (T) `PhiRunOK.prime0/primes/cache`, `h.phiVec`.  Result: π(x), or `badRun` for a recorded D history that is not a run. -/
+    (T) `PhiRunOK.cache`, `h.phiVec`.  Result: π(x), or `badRun` for a recorded D history that is not a run. -/
 theorem pi_api_eq_pi (W : World) {B : ℕ} (h : W.OK B) (pi : ℕ → ℕ) (x : ℤ) (hx : x < 2 ^ 127) (threads : ℤ) (isPrint : Bool)
     (r : ApiRun)
     (hphi : ∀ n : ℕ, (n : ℤ) ≤ x → maxCached < n → n ≤ meisselMax → W.PhiRunOK n)
@@ -112,7 +121,7 @@ theorem pi_api_eq_pi_generic {σ : Type} (T : Tables σ) {B : ℕ} (hT : TablesO
 
 /-- the world: sieving-core model below 2^50 (NO float assumption left), 256 KiB sieve, tables up to 3000 -/
 example : exWorld.OK 100 := exWorld_ok
-/-- (L), (T), (O) of phi.cpp at every level -/
+/-- (L), (T), (O) of phi.cpp at every level (the prime vector is no hypothesis) -/
 example (n : ℕ) : exWorld.PhiRunOK n := exWorld_phiRunOK n
 /-- (O) the nested-call hypothesis at `x = 10^5` with `pi := π`: every `pi_noprint(n)`, `n < 10^5`, of the dispatcher over the world returns `π n`
     (cache below 30719, `pi_legendre` with the L2 model of phi.cpp inside above) -/
@@ -149,6 +158,7 @@ example : piApi128 (exWorld.tables false) exWorld.phi Nat.primeCounting 50000 1 
 end Pc.C01Closed
 
 #print axioms Pc.C01Closed.world_tables_ok
+#print axioms Pc.C01Closed.world_generate_primes
 #print axioms Pc.C01Closed.nested_calls_are_pi
 #print axioms Pc.C01Closed.pi_api_eq_pi
 #print axioms Pc.C01Closed.pi_gourdon_eq_pi
